@@ -357,7 +357,14 @@ func ProofAuthenticate(cfg ProofConfig, inner AuthenticateFunc) (AuthenticateFun
 	}
 	var cache *nonceCache
 	if !cfg.DisableReplayCache {
-		cache = newNonceCache(time.Duration(cfg.SkewSeconds)*time.Second, capacity, cfg.Now)
+		// A nonce has to be remembered for as long as its proof can still pass
+		// the timestamp check. A proof dated ts is accepted while now.Unix()
+		// lies in [ts-skew, ts+skew], i.e. from ts-skew up to, but excluding,
+		// ts+skew+1 — a span of 2*skew+1 seconds, not skew. The sweep drops an
+		// entry once its expiry is <= now, so an entry added at the earliest
+		// accepting instant is still present at the last one.
+		ttl := time.Duration(2*cfg.SkewSeconds+1) * time.Second
+		cache = newNonceCache(ttl, capacity, cfg.Now)
 	}
 	required := cfg.Mode == ProofModeRequire
 	local := cfg
